@@ -20,6 +20,10 @@ def recordings():
     return sorted(glob.glob(os.path.join(REPO, "logs", "*.txt")))
 
 
+class SessionEnded(Exception):
+    pass
+
+
 class RealServer:
     def __init__(self, path=None, pairs=None):
         import ynca.server as SRV
@@ -38,9 +42,12 @@ class RealServer:
         h.client_address = ("test", 0)
         self.h = h
 
+    SENTINEL = "@VERIFSENTINEL:PING=?"
+
     def command(self, line: str):
-        """returns (list of reply lines, exception or None)"""
-        self.h.rfile = io.BytesIO(line.encode("utf-8") + b"\r\n")
+        """returns (list of reply lines, exception or None).  The line is followed, in the same session, by a sentinel GET for a
+        subunit no store has (answered with one error line): a session that ended or stopped answering shows as SessionEnded"""
+        self.h.rfile = io.BytesIO(line.encode("utf-8") + b"\r\n" + self.SENTINEL.encode() + b"\r\n")
         self.h.wfile = io.BytesIO()
         exc = None
         with contextlib.redirect_stdout(io.StringIO()):
@@ -52,6 +59,11 @@ class RealServer:
         lines = out.split("\r\n")
         if lines and lines[-1] == "":
             lines.pop()
+        if exc is None:
+            if not lines or lines[-1] not in ("@UNDEFINED", "@RESTRICTED"):
+                exc = SessionEnded(f"the server did not answer the command that followed {line!r} in the same session")
+            else:
+                lines.pop()
         return lines, exc
 
     def dump(self):
